@@ -7,6 +7,7 @@ package main
 import (
 	"fmt"
 	"go/types"
+	"sort"
 	"strings"
 
 	"golang.org/x/tools/go/ssa"
@@ -77,6 +78,7 @@ func (vc *VC) newError(st *State, kind string) Val {
 // errIs models errors.Is(err, target) for the finite set of targets used.
 func (vc *VC) errIs(err Val, target Val) string {
 	vc.declareFun("ErrIs", []string{sBV64, sBV64, sBV64, sBV64}, sBool)
+	vc.errTargetAxioms()
 	nilErr := eq(err.L[0], bvLit(64, 0))
 	same := and(eq(err.L[0], target.L[0]), eq(err.L[1], target.L[1]))
 	return and(not(nilErr), or(same, app("ErrIs", err.L[0], err.L[1], target.L[0], target.L[1])))
@@ -187,29 +189,8 @@ func (vc *VC) varargErrors(fr *Frame, call *ssa.CallCommon) []Val {
 // errTargets: the error values used as errors.Is targets in the verified packages.
 func (w *World) errTargets(vc *VC) []Val {
 	var out []Val
-	for _, gname := range []string{"io.EOF", "io.ErrUnexpectedEOF"} {
-		out = append(out, vc.externErrVar(gname))
-	}
-	// repository-level targets (errReadSize ...) are canonical boxes of immutable globals
-	for _, sp := range w.SSAPkgs {
-		for _, m := range sp.Members {
-			g, ok := m.(*ssa.Global)
-			if !ok {
-				continue
-			}
-			t := g.Type().(*types.Pointer).Elem()
-			if !types.Implements(t, types.Universe.Lookup("error").Type().Underlying().(*types.Interface)) {
-				continue
-			}
-			if _, isIface := t.Underlying().(*types.Interface); isIface {
-				continue
-			}
-			if !w.immutableGlobal(g) {
-				continue
-			}
-			et := types.Universe.Lookup("error").Type()
-			out = append(out, Val{T: et, L: []string{bvLit(64, uint64(w.tags.tag(t))), bvLit(64, uint64(w.globalBoxId(g)))}})
-		}
+	for _, t := range w.errTargetList(vc) {
+		out = append(out, t.val)
 	}
 	return out
 }
@@ -268,4 +249,112 @@ func (vc *VC) getGhost(st *State, name string, key string, sort string) string {
 	hs := arrSort(sBV64, sort)
 	vc.ghostSorts[hn] = hs
 	return sel(vc.heapTerm(st, hn, hs), key)
+}
+
+// rvInterface: the interface value a reflect.Value of a whole message yields.
+func (vc *VC) rvInterface(v Val) Val {
+	vc.declareFun("RVTag", []string{sBV64}, sBV64)
+	it := types.NewInterfaceType(nil, nil)
+	return Val{T: it, L: []string{app("RVTag", v.L[1]), v.L[0]}}
+}
+
+// errTarget describes one error value used as an errors.Is target.
+type errTarget struct {
+	val  Val          // interface value (canonical box)
+	g    *ssa.Global  // repository variable (nil for standard-library variables)
+	conc types.Type   // concrete type
+}
+
+func (w *World) errTargetList(vc *VC) []errTarget {
+	var out []errTarget
+	et := types.Universe.Lookup("error").Type()
+	for _, gname := range []string{"io.EOF", "io.ErrUnexpectedEOF"} {
+		out = append(out, errTarget{val: vc.externErrVar(gname)})
+	}
+	var gs []*ssa.Global
+	for _, sp := range w.SSAPkgs {
+		for _, m := range sp.Members {
+			g, ok := m.(*ssa.Global)
+			if !ok {
+				continue
+			}
+			t := g.Type().(*types.Pointer).Elem()
+			if _, isIface := t.Underlying().(*types.Interface); isIface {
+				continue
+			}
+			if !types.Implements(t, et.Underlying().(*types.Interface)) || !w.immutableGlobal(g) {
+				continue
+			}
+			gs = append(gs, g)
+		}
+	}
+	sort.Slice(gs, func(i, j int) bool { return gs[i].String() < gs[j].String() })
+	for _, g := range gs {
+		t := g.Type().(*types.Pointer).Elem()
+		out = append(out, errTarget{val: Val{T: et, L: []string{bvLit(64, uint64(w.tags.tag(t))), bvLit(64, uint64(w.globalBoxId(g)))}}, g: g, conc: t})
+	}
+	return out
+}
+
+// errTargetAxioms: errors.Is between the known target values themselves.
+func (vc *VC) errTargetAxioms() {
+	if vc.errAxDone {
+		return
+	}
+	vc.errAxDone = true
+	vc.trusted["errors.Is on error values without Unwrap/Is methods is == on (dynamic type, value)"] = true
+	ts := vc.w.errTargetList(vc)
+	st := &State{heap: newHeap(), alloc: "alloc0", cond: "true"}
+	for i, a := range ts {
+		for j, b := range ts {
+			if i == j {
+				continue
+			}
+			eqv := "false"
+			if a.g != nil && b.g != nil && types.Identical(a.conc, b.conc) {
+				va := vc.loadGlobalPath(st, &PtrDesc{Root: rGlobal, Glob: a.g, RootT: a.conc, T: a.conc})
+				vb := vc.loadGlobalPath(st, &PtrDesc{Root: rGlobal, Glob: b.g, RootT: b.conc, T: b.conc})
+				eqv = vc.valEq(va, vb)
+			}
+			vc.prelude = append(vc.prelude, fmt.Sprintf("(assert (= (ErrIs %s %s %s %s) %s))", a.val.L[0], a.val.L[1], b.val.L[0], b.val.L[1], eqv))
+		}
+	}
+}
+
+// errBoxAxioms: a freshly boxed concrete error value (no Unwrap) is errors.Is
+// a target exactly when it has the target's type and value.
+func (vc *VC) errBoxAxioms(st *State, iv Val, v Val) {
+	et := types.Universe.Lookup("error").Type()
+	if !types.Implements(v.T, et.Underlying().(*types.Interface)) {
+		return
+	}
+	if hasMethod(v.T, "Unwrap") || hasMethod(v.T, "Is") {
+		return
+	}
+	vc.declareFun("ErrIs", []string{sBV64, sBV64, sBV64, sBV64}, sBool)
+	vc.errTargetAxioms()
+	for _, t := range vc.w.errTargetList(vc) {
+		eqv := "false"
+		if t.g != nil && types.Identical(t.conc, v.T) {
+			tv := vc.loadGlobalPath(st, &PtrDesc{Root: rGlobal, Glob: t.g, RootT: t.conc, T: t.conc})
+			eqv = vc.valEq(v, tv)
+		}
+		vc.assume(st.cond, eq(app("ErrIs", iv.L[0], iv.L[1], t.val.L[0], t.val.L[1]), eqv))
+	}
+}
+
+func hasMethod(t types.Type, name string) bool {
+	ms := types.NewMethodSet(t)
+	for i := 0; i < ms.Len(); i++ {
+		if ms.At(i).Obj().Name() == name {
+			return true
+		}
+	}
+	ms = types.NewMethodSet(types.NewPointer(t))
+	for i := 0; i < ms.Len(); i++ {
+		if ms.At(i).Obj().Name() == name {
+			return true
+		}
+	}
+	return false
 }
